@@ -2,6 +2,7 @@ package rules
 
 import (
 	"fmt"
+	"go/token"
 	"go/types"
 	"strings"
 
@@ -265,6 +266,7 @@ func c12(r *core.Report) {
 
 	// ---- C12-INNER-CLOSED
 	r.Rule("C12-INNER-CLOSED", "Close of a wrapping swarm reaches Close of the inner swarm it owns", 5)
+	r.Rule("C12-CLOSE-ORDER", "a wrapper's Close does not wait for its workers before it has closed the inner swarm", 4)
 	type innerSlot struct {
 		rel, typ, field string
 		must            bool
@@ -314,6 +316,34 @@ func c12(r *core.Report) {
 		if !present {
 			r.Violation("C12-INNER-CLOSED", c, p.Pos(closeM.Pos()), "Close never closes the inner swarm: its receive goroutines and sockets outlive Close")
 			continue
+		}
+		// CLOSE-ORDER: the wrapper's workers sit in the inner swarm's Receive, and for a transport that
+		// ignores cancellation (udp) only the inner Close releases them: Close must not wait for anything
+		// (a channel, a WaitGroup, an errgroup) before it has closed the inner swarm
+		{
+			before := core.Reach(closeM, nil, nil, isInnerClose)
+			waits := ""
+			for in := range before {
+				if isInnerClose(in) {
+					continue
+				}
+				switch x := in.(type) {
+				case *ssa.UnOp:
+					if x.Op == token.ARROW {
+						waits = "a channel receive at " + p.Pos(x.Pos())
+					}
+				case *ssa.Select:
+					if x.Blocking {
+						waits = "a blocking select at " + p.Pos(x.Pos())
+					}
+				case ssa.CallInstruction:
+					n := core.CalleeName(x.Common())
+					if strings.HasSuffix(n, ".Wait") && (strings.Contains(n, "sync.WaitGroup") || strings.Contains(n, "errgroup.Group")) {
+						waits = n + " at " + p.Pos(x.Pos())
+					}
+				}
+			}
+			r.Check(waits == "", "C12-CLOSE-ORDER", typeName(n)+".Close", p.Pos(closeM.Pos()), "nothing blocks before the inner swarm is closed", "Close waits ("+waits+") before it closes the inner swarm: workers blocked in the inner swarm's Receive are released only by that Close (a transport that ignores cancellation never lets them go), so Close never returns and every blocked Receive stays blocked")
 		}
 		if s.must {
 			r.Check(mustPass(closeM, isInnerClose), "C12-INNER-CLOSED", c, p.Pos(closeM.Pos()), "every path through Close calls the inner Close", "some path through Close returns without closing the inner swarm")
@@ -592,8 +622,19 @@ func auditedGoroutineCloser(r *core.Report, owner *types.Named, f *types.Var, cl
 		for _, fn := range p.ModFuncs {
 			for _, in := range core.AllInstrs(fn) {
 				g, ok := in.(*ssa.Go)
-				if !ok || !core.IsCallToFn(g.Common(), cf) {
+				if !ok {
 					continue
+				}
+				direct := core.IsCallToFn(g.Common(), cf)
+				if !direct {
+					// `go func() { ...; s.recvLoops(...) }()`: a literal that calls the closer on every path
+					lit := core.ClosureFn(g.Common().Value)
+					if lit == nil || !mustPass(lit, func(i2 ssa.Instruction) bool {
+						c2, ok := i2.(ssa.CallInstruction)
+						return ok && core.IsCallToFn(c2.Common(), cf)
+					}) {
+						continue
+					}
 				}
 				for _, in2 := range core.AllInstrs(fn) {
 					if a, ok := in2.(*ssa.Alloc); ok && isNamed(a.Type(), owner) {
